@@ -138,7 +138,7 @@ func corrTasks(r *hx.Rand, o *hx.Opts) []*task {
 		"field":           {P("'a,b,,c'", "1", "','"), P("'a,b,,c'", "2", "','"), P("'a,b,,c'", "4", "','"), P("'  a   b c '", "1", "' '"), P("'a,b,,c'", "1", "''"), P("''", "0", "''"), P("''", "0", "','"), P("'a,b,,c'", "-1", "','"), P("'aaaa'", "1", "'aa'"), P("'a,b,,c'", "18446744073709551619", "','")},
 		"text_slice":      {P("'hello world'", "2"), P("'hello world'", "1", "3"), P("'hello world'", "-3", "-1"), P("'hello world'", "7", "100"), P("'hello world'", "-100", "3"), P("'hello world'", "3", "1"), P("'hello world'", "1", "3", "5"), P("'hello world'", "2147483647"), P("'hello world'", "-2147483648", "2147483647")},
 		"char":            {P("65.9"), P("128512"), P("-1"), P("55296"), P("1114112"), P("18446744073709551616"), P("2147483648"), P("0"), P("36893488147419103233")},
-		"repeat":          {P("'ab'", "3"), P("''", "2147483647"), P("'ab'", "0"), P("'ab'", "-1"), P("'ab'", "18446744073709551619"), P("'ab'", "2147483648"), P("nil", "5"), P("1.50", "2")},
+		"repeat":          {P("'ab'", "50001"), P("'ab'", "100001"), P("'a'", "100001"), P("'ab'", "2147483647"), P("'ab'", "3"), P("''", "2147483647"), P("'ab'", "0"), P("'ab'", "-1"), P("'ab'", "18446744073709551619"), P("'ab'", "2147483648"), P("nil", "5"), P("1.50", "2")},
 		"replace":         {P("'foo bar foo'", "'foo'", "'zap'"), P("'foo bar foo'", "'foo'", "'zap'", "1"), P("'foo bar foo'", "'foo'", "'zap'", "0"), P("'foo bar foo'", "''", "'zap'", "2"), P("'ab'", "''", "','"), P("'aaaa'", "'aa'", "'a'"), P("'foo'", "'foo'", "''", "-5"), P("''", "''", "'zap'")},
 		"round":           {P("2.5"), P("-2.5"), P("2.675", "2"), P("-2.675", "2"), P("1234567.891", "-3"), P("0.005", "2"), P("-0.005", "2"), P("1.5", "100"), P("1.5", "101"), P("1.5", "-100"), P("1.5", "-101"), P("1E-100", "99"), P("5E+20", "-21"), P("0.0049", "2")},
 		"round_up":        {P("2.5"), P("-2.5"), P("2.1"), P("-2.1"), P("2.0"), P("1234.001", "2"), P("1234.001", "-2"), P("0.0049", "2"), P("1.5", "101"), P("10.0", "1")},
@@ -194,6 +194,7 @@ func corrTasks(r *hx.Rand, o *hx.Opts) []*task {
 	for _, pair := range [][2]string{{"2", "10"}, {"2", "-2"}, {"-2", "3"}, {"-2", "-3"}, {"1.5", "3"}, {"0.001", "999999999"}, {"0.001", "33333"}, {"0.001", "33334"}, {"0.001", "-33334"},
 		{"0", "0"}, {"0", "5"}, {"0", "-5"}, {"5", "0"}, {"2", "0.5"}, {"-8", "0.5"}, {"9", "-0.5"}, {"2", "-100001"}, {"99", "-50001"}, {"99", "-50000"}, {"3", "-200"}, {"1E3", "3"}, {"1E3", "101"}, {"1E-100", "1.5"},
 		{"1234567890123456789012345678901234567890123456789012345678901234", "0.5"}, {"12345678901234567890123456789012345678901234567890123456789012345", "0.5"}, {"2", "1E3"}, {"2", "2.0"}, {"1.0", "200"},
+		{"2", "100000"}, {"2", "100001"}, {"10", "50000"}, {"10", "50001"}, {"99", "50001"}, {"1", "100000000000000000000"}, {"-1", "100000000000000000001"}, {"7", "100001.5"},
 		{"0.10", "60000"}, {"0.1", "60000"}, {"0.10", "3"}, {"10.0", "-3"}, {"10.0", "-60000"}, {"1E3", "2"}, {"1E3", "40"}, {"2.50", "0.5"}, {"0.00", "0"}, {"0.00", "2"}, {"100.00", "2"}, {"-2.500", "3"}} {
 		addCall("op", "op:^", []VSpec{named(pair[0], vNum(pair[0])), named(pair[1], vNum(pair[1]))})
 	}
@@ -314,6 +315,10 @@ func corrEligible(c *Call) bool {
 			if p, ok := approxNumber(c.Args[1]); ok {
 				resultExp := new(big.Int).Mul(big.NewInt(int64(b.Exponent())), p.BigInt())
 				rejected := !resultExp.IsInt64() || resultExp.Int64() < -100000 || resultExp.Int64() > 100000
+				if b.Coefficient().CmpAbs(big.NewInt(1)) > 0 { // digits x power beyond the limit: an error value too
+					size := new(big.Int).Mul(big.NewInt(int64(b.NumDigits())), p.BigInt())
+					rejected = rejected || !size.IsInt64() || size.Int64() < -100000 || size.Int64() > 100000
+				}
 				if !rejected && (p.Abs().Cmp(decimal.New(200, 0)) > 0 || b.NumDigits() > 60) {
 					return false
 				}
@@ -333,7 +338,8 @@ func corrEligible(c *Call) bool {
 			// a large count that passes ToInteger makes a large text: the model would build it as well
 			ip := new(big.Int).Set(n.BigInt())
 			low := new(big.Int).And(new(big.Int).Abs(ip), new(big.Int).SetUint64(^uint64(0)))
-			if low.Cmp(big.NewInt(2000)) > 0 && low.Cmp(new(big.Int).SetUint64(1<<63)) < 0 {
+			overLimit := new(big.Int).Mul(low, big.NewInt(int64(len([]rune(c.Args[0].S))))).Cmp(big.NewInt(100000)) > 0 && c.Args[0].T == "text"
+			if low.Cmp(big.NewInt(2000)) > 0 && low.Cmp(new(big.Int).SetUint64(1<<63)) < 0 && !overLimit {
 				return false
 			}
 		}
